@@ -400,7 +400,7 @@ def import_in_function_cases(rng, n):
         return ('print "init lib%d"\ncounter_%d = 0\nexport bump_%d: fn() -> int = fn() -> int {\n\tmodify counter_%d = counter_%d + 1\n\treturn counter_%d\n}\n'
                 'export val_%d: int = %d\n' % (k, k, k, k, k, k, k, 100 * (k + 1)))
     out = []
-    wheres = ["top", "block", "after-print", "nested-fn", "method", "other-module"]
+    wheres = ["top", "block", "after-print", "nested-fn", "method", "other-module", "captured-by-inner"]
     for idx in range(n):
         nl = rng.choice([1, 2])
         files = {"lib%d.ms" % k: lib(k) for k in range(nl)}
@@ -422,6 +422,9 @@ def import_in_function_cases(rng, n):
                 main += "f%d = fn() -> int {\n\tprint \"in f%d\"\n\t%s\n\treturn %s\n}\n" % (i, i, imp, use)
             elif where == "nested-fn":
                 main += "f%d = fn() -> int {\n\tg = fn() -> int {\n\t\t%s\n\t\treturn %s\n\t}\n\treturn g()\n}\n" % (i, imp, use)
+            elif where == "captured-by-inner":
+                # the imported name is a local of f: an inner function captures it from THERE
+                main += "f%d = fn() -> int {\n\t%s\n\tg = fn() -> int {\n\t\treturn %s\n\t}\n\treturn g()\n}\n" % (i, imp, use)
             elif where == "method":
                 main += "class C%d {\n\tconstructor(self) {}\n\tfn go(self) -> int {\n\t\t%s\n\t\treturn %s\n\t}\n}\nc%d = C%d()\n" % (i, imp, use, i, i)
                 call = "c%d.go()" % i
@@ -492,7 +495,7 @@ def declared_type_cases():
 
 def run_function_imports_and_types(ctx, binary):
     base = ctx.mktemp()
-    fcases = import_in_function_cases(ctx.rng, 36 if ctx.quick() else 360)
+    fcases = import_in_function_cases(ctx.rng, 42 if ctx.quick() else 420)
 
     def one(c):
         files = c[0]
@@ -659,6 +662,7 @@ def run(ctx):
     nlive = run_live_exports(ctx, binary)
     before = len(ctx.viol)
     nlive += run_function_imports_and_types(ctx, binary)
+    nlive += run_double_exports(ctx, binary)
     spec_fail += len(ctx.viol) - before
     ctx.cov["evaluations"] = len(projs) + neg + nlive
     ctx.cov["distinct_nontrivial"] = nontrivial
@@ -669,7 +673,7 @@ def run(ctx):
                                   + ("" if ctx.quick() else "; 4 modules: every DAG x form per edge (placement/order random)"))
     ctx.cov["rule"] = ("a case = one project run twice (in memory, from files); streams: exhaustive-3, kinds-3, exhaustive-4 (thorough), random 4-5-module DAGs with random module kinds, "
                        "path spellings (./m, ././m, m.ms, lib/./m, entry as ./m0.ms), 7 rejected visibility programs; import statements inside function / method bodies "
-                       "(first executed at the first call; top of the body, nested block, after an effect, inner function, method, function of another module; both forms; both modes); "
+                       "(first executed at the first call; top of the body, nested block, after an effect, inner function, captured by an inner function, method, function of another module; both forms; both modes); "
                        "every kind of exported member (int, str, list, function, instance, optional instance, list of instances, function returning an instance, const instance) "
                        "used with its declared type by name and through the module, and 5 programs that contradict the declared type; "
                        "non-trivial = a reached module is imported by at least two import sites (once-only / sharing is exercised)")
@@ -685,3 +689,48 @@ def run(ctx):
                        "module identity = normalised path (fixes/import-path-normalise.diff); the grammar admits no usable `..` component",
                        "declared types / non-reassignability of imports are compiler checks outside the loader model: observed on 7 fixed programs only"]
     core.proof_or_search(ctx, ok, ["C11_init_once_in_order", "C11_shared_instance", "C11_exports_write_once"], spec_fail > 0)
+
+
+def run_double_exports(ctx, binary):
+    """(hunt D9) a module that marks ONE name `export` twice with the same type.  The compiler compares the two declarations
+    (a different type is a diagnostic), so the pair is either refused before anything runs, or it is an ordinary program whose
+    top level runs to its end before the importer continues.  What may not happen is the third thing: the module starts, and
+    its initialisation is cut short by the interpreter's internal write-once check on the export table."""
+    base = ctx.mktemp()
+    decls = [("int", "1", "2"), ("str", '"a"', '"b"'), ("[int...]", "[1]", "[2]"), ("fn() -> int", "fn() -> int {\n  return 1\n}", "fn() -> int {\n  return 2\n}")]
+    cases = []
+    for ty, v1, v2 in decls:
+        for middle in ("", 'print "m middle"\n', 'other: int = 5\n'):
+            m = 'print "m init"\nexport level: %s = %s\n%sexport level: %s = %s\nprint "m end"\n' % (ty, v1, middle, ty, v2)
+            for form, imp in (("import m", "import m\n"), ("import level from m", "import level from m\n"), ("import m twice", "import m\nimport level from m\n")):
+                cases.append(("%s / %s / %r" % (ty, form, middle), "main.ms", {"main.ms": 'print "main start"\n%sprint "main after import"\n' % imp, "m.ms": m},
+                              ["main start", "m init", "m end", "main after import"]))
+            cases.append(("%s / the module is the entry / %r" % (ty, middle), "m.ms", {"m.ms": m}, ["m init", "m end"]))
+
+    def one(case):
+        name, entry, files, must = case
+        d = programs.materialize({"files": files}, base)
+        r1 = programs.run_bin(binary, ["run", entry, "-q"], d)
+        c = programs.run_bin(binary, ["compile", entry, "--quick"], d)
+        r2 = programs.run_bin(binary, ["execute", entry[:-3] + ".mmm"], d) if c[0] == 0 else None
+        shutil.rmtree(d, ignore_errors=True)
+        return r1, c, r2
+
+    n = 0
+    for (name, entry, files, must), (r1, c, r2) in zip(cases, programs.pmap(one, cases)):
+        for mode, r in (("run", r1), ("execute", r2)):
+            if r is None:
+                continue
+            n += 1
+            got = r[1].splitlines()
+            printed = [l for l in got if l in must or l == "m middle"]
+            completed = r[0] == 0 and [l for l in got if l in must] == must
+            refused = r[0] != 0 and not printed and "MSCRIPT INTERPRETER" not in r[2]
+            if not (completed or refused):
+                ctx.report("double-export-aborts-module-initialisation",
+                           "a module that exports one name twice (%s) is accepted by the compiler, starts, and does not finish its top level under %s: exit %s, printed %r, %s" % (
+                               name, mode, r[0], printed, (r[2].strip().splitlines() or [""])[-1][:120] if "Double export" not in r[2] else "Double export: name is already exported"),
+                           {"files": files, "entry": entry, "mode": mode, "rc": r[0], "stdout": r[1][-800:], "stderr": r[2][-800:],
+                            "expected": "a diagnostic before anything runs, or %r printed in this order and exit 0" % must,
+                            "how": "mscript run %s -q   /   mscript compile %s --quick; mscript execute %s.mmm" % (entry, entry, entry[:-3])})
+    return n
